@@ -17,6 +17,8 @@ SHAPES = {
     "zb": dict(ps=[("s", "&'x str", '"s11"')], asy=False, borrowed=True),
     # the same with the named lifetime on the receiver / deps reference as well
     "zc": dict(ps=[("s", "&'x str", '"s11"')], asy=False, borrowed=True, recv_lt=True),
+    # return type borrowed from the dependency (elided lifetime)
+    "zd": dict(ps=[], asy=False, from_deps=True),
     "y0": dict(ps=[], asy=True), "y1": dict(ps=[("a", "i64", "11")], asy=True), "y2": dict(ps=[("a", "i64", "11"), ("b", "i64", "12")], asy=True),
     "ys": dict(ps=[("s", "&str", '"s11"')], asy=True),
 }
@@ -49,6 +51,8 @@ def trait_method(x, i):
     d = SHAPES[x]
     if d.get("borrowed"):
         return "fn m%d<'x>(&%sself, %s) -> &'x str;" % (i, "'x " if d.get("recv_lt") else "", ", ".join("%s: %s" % (p[0], p[1]) for p in d["ps"]))
+    if d.get("from_deps"):
+        return "fn m%d(&self) -> &str;" % i
     ps = "".join(", %s: %s" % (p[0], p[1]) for p in d["ps"])
     return "%sfn m%d(&self%s) -> String;" % ("async " if d["asy"] else "", i, ps)
 
@@ -64,6 +68,8 @@ def impl_fn(s, x, i, target):
         ps = ", ".join("%s: %s" % (p[0], p[1]) for p in d["ps"])
         dep_ty_b = dep_ty.replace("&", "&'x ", 1) if d.get("recv_lt") else dep_ty
         return "pub fn m%d<'x>(deps: %s, %s) -> &'x str { %s %s s }" % (i, dep_ty_b, ps, ev, " ".join("let _ = %s;" % v for v in depvals))
+    if d.get("from_deps"):
+        return "pub fn m%d(deps: %s) -> &str { %s %s rt::tn(deps) }" % (i, dep_ty, ev, " ".join("let _ = %s;" % v for v in depvals))
     ps = "".join(", %s: %s" % (p[0], p[1]) for p in d["ps"])
     res = gen.fmt_call("%s.m%d" % (target, i), shows + depvals)
     pre = "rt::yield_once().await; " if d["asy"] else ""
@@ -126,7 +132,7 @@ def model(s):
             d = SHAPES[x]
             shown = [{"11": "11", "12": "12", '"s11"': "s11"}[p[2]] for p in d["ps"]]
             deps = [{"Dep1": "5", "Dep2": "6"}[b] for b in bounds_of(s, i)]
-            res = "s11" if d.get("borrowed") else "|".join(["%s.m%d" % (t, i)] + shown + deps)
+            res = "s11" if d.get("borrowed") else "<typename>" if d.get("from_deps") else "|".join(["%s.m%d" % (t, i)] + shown + deps)
             exp["%s_m%d" % (app, i)] = dict(target=t, method=i, args=shown, result=res, app=app)
     return exp
 
@@ -165,6 +171,8 @@ def evaluate(states, report, tier):
                     else:
                         sig = "trace:wrong-arguments"
                     problems.append((sig, "%s: trace %r, model says %r" % (name, trace, want)))
+                if e["result"] == "<typename>":
+                    e = dict(e, result=appinfo.split("|", 1)[1])
                 if result != e["result"]:
                     problems.append(("result", "%s: %r, model says %r" % (name, result, e["result"])))
         report.observe(s["key"], m, obs if not problems else dict(obs, problems=sorted(set(p[0] for p in problems))), nontrivial=True,
